@@ -6,6 +6,11 @@ ids = [p['id'] for p in props]
 
 # id -> (category, technique, text, note, design_ref)
 CHECKS = {
+ 'C04': ('exploration',
+         'property-based testing: validity predicate over both artifacts, planted faults, and file-system observation of the real binary',
+         'Accepted documents mixing constant bindings of every catalogue kind, dynamic bindings, handlers and mixed gadget maps on arbitrary object trees: every binding must surface in exactly one place (decoded .ui value, or exactly one update/connect on exactly its object in the scanned header). Faulted documents (one of 17 fault kinds planted anywhere): not accepted, an error diagnostic within the text of the faulty binding, and - through the real qmluic binary in a scratch project with pre-existing outputs - exit status 1 with every file byte-, inode- and mtime-identical and nothing created.',
+         'Trusts the harness XML reader and header scanner; setter/getter names come from the metatypes. The CLI part is sampled (200 runs quick, 3000 thorough).',
+         'DESIGN.md section 3 C04 and appendix A'),
  'C05': ('exploration',
          'differential property testing in both directions: type-directed program generator (accept) and single type-breaking edits that are ill-typed by construction (reject)',
          'Direction 1: documents with up to 12 binding bodies and 3 handler bodies grown type-first from the documented subset must be accepted with an empty diagnostic list. Direction 2: the same programs (dynamic and constant-only, bindings and handlers) with exactly one edit from a 30-kind catalogue mirroring the rule list of the statement must be rejected with an error inside the edited binding. The evidence reports the edit-kind x context x site matrix.',
